@@ -38,7 +38,7 @@ SRC = "esutil/htm/htmc.cc"
 
 # rules that keep their verdict however the code is laid out (decided by term equality, effect analysis or dominance over
 # resolved calls); every other rule of this check is a template rule (vcheck.core.Check.obt)
-SEMANTIC = ('R13.1::lookup_id::ra-read-through', 'R13.1::lookup_id::dec-read-through', 'R13.2::HTM.intersect::flag-mapping', 'R13.3::cbincount::lower-edge-guard-on-untruncated-value', 'R13.3::cbincount::upper-bin-guard', 'R13.3::cbincount::per-point-value', 'R13.4', 'R13.5', 'R13.6')
+SEMANTIC = ('R13.1::lookup_id::ra-read-through', 'R13.1::lookup_id::dec-read-through', 'R13.2::HTM.intersect::flag-mapping', 'R13.3::cbincount::lower-edge-guard-on-untruncated-value', 'R13.3::cbincount::upper-bin-guard', 'R13.3::cbincount::per-point-value', 'R13.4', 'R13.5', 'R13.6', 'R13.7')
 
 
 def run(chk):
@@ -62,6 +62,10 @@ def run(chk):
     id_width(chk)
     # circle lists: a stored node wholly inside the circle hands over all and only its leaf descendants, by HTM id (shared with C12)
     _c12.fill_children_rules(chk, rule="R13.6")
+    # ... and so does every other method that handles a stored node (triangleTest): HTM ids, not node positions, reach the lists; all four
+    # stored children are searched
+    _c12.node_walk_rules(chk, rule="R13.6")
+    descent_tolerance(chk)
 
 
 class Fn:
@@ -618,8 +622,28 @@ def bincount_py(chk, repo, cdecl):
                % (norm(mn) if mn is not None else "not given", "always htmid2.min()" if all_min else "possibly the caller's"))
         hist = repo.func("esutil.stat.util.histogram")
         dbs = hist.defaults.get("binsize")
+        hps0 = [p for p in hist.params if not p.startswith("*")]
+        if bs is None and "binsize" in hps0 and hps0.index("binsize") < len(h.args):
+            bs = h.args[hps0.index("binsize")]          # given by position
         okb = (bs is not None and const_value(bs) in (1, 1.0)) or (bs is None and dbs is not None and const_value(dbs) in (1, 1.0))
-        chk.ob("R13.4", "HTM.bincount::unit-bins", okb, fi.where(h), "one reverse-index bin per triangle id (binsize 1)")
+        # ... and that bin size is the one the histogram code really uses: the parameters through which it chooses ANOTHER bin width (read off its
+        # source: they decide whether the `binsize` argument is replaced or reaches the binning at all) are not given
+        ov = _width_overrides(hist, "binsize")
+        hps = [p for p in hist.params if not p.startswith("*")]
+        given = {}
+        for p_, a_ in zip(hps, h.args):
+            given[p_] = a_
+        for k_ in h.keywords:
+            if k_.arg is not None:
+                given[k_.arg] = k_.value
+        over = sorted(p_ for p_ in ov if p_ in given and not (isinstance(given[p_], ast.Constant) and given[p_].value is None))
+        okw = okb and not over
+        chk.ob("R13.4", "HTM.bincount::unit-bins", okw, fi.where(h),
+               "one reverse-index bin per triangle id: the histogram is asked for binsize 1 and for nothing that makes it use another bin width (in %s the "
+               "bin width given by `binsize` is overridden through: %s)%s"
+               % (hist.qualname.split(".")[-1], sorted(ov) or "nothing",
+                  "" if not over else " -- the call passes %s: the bins are then not one id wide (k = id - minid no longer names the bin of id), "
+                  "members of some triangles are filed under another bin or under none" % ", ".join("%s=%s" % (p_, norm(given[p_])) for p_ in over)))
     # defaults for minid / maxid and the lookup of ids: decided on the terms handed to the extension, case by case
     from vcheck import symx
     S = sp.Symbol
@@ -666,6 +690,277 @@ def bincount_py(chk, repo, cdecl):
     bsz = (sp.log(b, 10) - sp.log(a, 10)) / n
     ok = isinstance(r, tuple) and len(r) == 2 and symx.equal(r[0], 10 ** (sp.log(a, 10) + bsz * k))[0] and symx.equal(r[1], 10 ** (sp.log(a, 10) + bsz * k + bsz))[0]
     chk.ob("R13.4", "log_bins::edges", bool(ok), lbf.where(), "lower edge k = 10^(log10 rmin + k*binsize), upper = lower*10^binsize with binsize = (log10 rmax - log10 rmin)/nbin (the C++ bin formula)")
+
+
+def _width_overrides(fi, par, depth=0, seen=None):
+    """parameters of the python function `fi`, other than `par`, that decide whether the value the caller gives for `par` is what the
+    function works with: a parameter is in the set when a test that mentions it controls a (re)definition of `par` or a statement that
+    uses `par`, in `fi` itself or - mapped back through the call's arguments - in a function / method of the same module that `fi`
+    hands `par` to under the same or another parameter name.  (For the histogram code and its bin size: nbin, which replaces the bin
+    size, and nperbin, which selects another binning altogether.)"""
+    seen = seen if seen is not None else set()
+    if (fi.qualname, par) in seen or depth > 3:
+        return set()
+    seen.add((fi.qualname, par))
+    cfg = rules.cfg_of(fi)
+    view = cfg.view()
+    params = {p for p in fi.params if not p.startswith("*")}
+    out = set()
+    for n in cfg.nodes:
+        if n.ast is None:
+            continue
+        d, u = cfg.defs_uses(n)
+        if par not in d and par not in u:
+            continue
+        tests = [b.ast.test for b, lab in view.controlling_branches(n) if b.kind == "branch" or (b.kind == "loop" and isinstance(b.ast, ast.While))]
+        if n.kind == "branch":
+            tests.append(n.ast.test)
+        for t in tests:
+            out |= {x.id for x in ast.walk(t) if isinstance(x, ast.Name)} & params
+        # handed on to a function / method of the same module
+        for c in rules.stmts_calls(n):
+            tgt, skip = None, 0
+            f = c.func
+            if isinstance(f, ast.Name) and f.id in fi.module.funcs:
+                tgt = fi.module.funcs[f.id]
+            elif isinstance(f, ast.Attribute):
+                cands = [v for k, v in fi.module.funcs.items() if "." in k and k.split(".")[-1] == f.attr]
+                if len(cands) == 1:
+                    tgt, skip = cands[0], 1
+            if tgt is None or any(isinstance(a, ast.Starred) for a in c.args) or any(k.arg is None for k in c.keywords):
+                continue
+            ps = [p for p in tgt.params if not p.startswith("*")][skip:]
+            bound = dict(zip(ps, c.args))
+            for k in c.keywords:
+                if k.arg in ps:
+                    bound[k.arg] = k.value
+            for q, a in bound.items():
+                if isinstance(a, ast.Name) and a.id == par:
+                    for o in _width_overrides(tgt, q, depth + 1, seen):
+                        e = bound.get(o)
+                        if e is not None:
+                            out |= {x.id for x in ast.walk(e) if isinstance(x, ast.Name)} & params
+    out.discard(par)
+    return out
+
+
+# ---------------------------------------------------------------------------
+def _header_constants(reldir):
+    """{name: float} of the scalar constants the headers of a source directory declare as `const <type> NAME = <numeric literal>;` (constant
+    evaluation of declarations: the filtered clang dump of a translation unit does not carry them)"""
+    import glob
+    import os
+    import re
+    from vcheck.core import REPO
+    out = {}
+    for path in sorted(glob.glob(os.path.join(REPO, reldir, "*.h"))):
+        try:
+            src = open(path, encoding="utf-8", errors="replace").read()
+        except OSError:
+            continue
+        src = re.sub(r"//[^\n]*|/\*.*?\*/", " ", src, flags=re.S)
+        for m in re.finditer(r"\bconst\s+[A-Za-z_][\w ]*?\b([A-Za-z_]\w*)\s*=\s*([-+]?(?:\d+\.?\d*|\.\d+)(?:[eE][-+]?\d+)?)[lLfF]?\s*;", src):
+            try:
+                out.setdefault(m.group(1), float(m.group(2)))
+            except ValueError:
+                pass
+    return out
+
+
+def _const_value(e, consts, depth=0, sdl=None):
+    """float value of a constant scalar expression (literals, declared constants, + - * / and unary minus), else None"""
+    e = strip(e)
+    k = e.get("kind")
+    if depth > 8:
+        return None
+    if k in ("FloatingLiteral", "IntegerLiteral"):
+        try:
+            return float(e.get("value"))
+        except (TypeError, ValueError):
+            return None
+    if k in ("ParenExpr", "ImplicitCastExpr", "CStyleCastExpr", "ExprWithCleanups", "CXXStaticCastExpr", "CXXFunctionalCastExpr") and e.get("inner"):
+        return _const_value(e["inner"][-1], consts, depth + 1, sdl)
+    if k == "DeclRefExpr":
+        rd = e.get("referencedDecl", {})
+        if rd.get("kind") == "VarDecl" and rd.get("name") in (sdl or {}):
+            return _const_value(sdl[rd["name"]], consts, depth + 1, sdl)      # a local that is initialised once and never written
+        if rd.get("kind") == "VarDecl" and "const" in (rd.get("type") or {}).get("qualType", ""):
+            return consts.get(rd.get("name"))
+        return None
+    if k == "UnaryOperator" and e.get("opcode") in ("-", "+"):
+        v = _const_value(e["inner"][0], consts, depth + 1, sdl)
+        return None if v is None else (-v if e["opcode"] == "-" else v)
+    if k == "BinaryOperator" and e.get("opcode") in ("+", "-", "*", "/"):
+        a, b = (_const_value(x, consts, depth + 1, sdl) for x in e["inner"])
+        if a is None or b is None or (e["opcode"] == "/" and b == 0):
+            return None
+        return {"+": a + b, "-": a - b, "*": a * b, "/": a / b if b else None}[e["opcode"]]
+    return None
+
+
+def _is_triple_product(e, sdl=None):
+    """(a ^ b) * c on vectors: the scalar whose sign says on which side of the great circle through a and b the direction c lies"""
+    from checks.C12 import _through_locals
+    e = _through_locals(e, sdl or {})
+    while e.get("kind") in ("ParenExpr", "ExprWithCleanups", "MaterializeTemporaryExpr", "ImplicitCastExpr", "CXXBindTemporaryExpr") and e.get("inner"):
+        e = strip(e["inner"][-1])
+    if e.get("kind") != "CXXOperatorCallExpr" or callee_name(e) != "operator*":
+        return False
+    for a in (e.get("inner") or [])[1:]:
+        for y in walk(a):
+            if y.get("kind") == "CXXOperatorCallExpr" and callee_name(y) == "operator^":
+                return True
+    return False
+
+
+def descent_tolerance(chk):
+    """R13.7: every position gets an id of the full depth.  The id is found by descending the mesh: at each level the position is tested
+    against the children of the current triangle with the sign of the triple products (a x b) . v of the edges.  Sibling triangles share
+    their edges, and for a position on (or within rounding of) a shared edge the computed product is a rounding error of either sign in
+    BOTH siblings; so a necessary condition for 'some child accepts it at every level' is that each edge test is closed with a slack:
+    it separates at a NEGATIVE constant, at least one unit roundoff below zero (`(a x b) . v < -eps` rejects, equivalently `>= -eps`
+    accepts).  A test that separates at 0 or above lets all four children reject such a position: the level gets no digit and the id is
+    too short (outside the range of the depth, not a child of the coarser id)."""
+    src = "esutil/htm/htm_src/SpatialIndex.cpp"
+    # every method body of the file, all overloads (cfront.functions keeps one definition per name)
+    bodies = {}
+    todo = list(cfront.load_tu("spatialindex"))
+    while todo:
+        d = todo.pop()
+        if not isinstance(d, dict):
+            continue
+        if d.get("kind") in cfront.FUNC_KINDS and cfront.has_body(d) and d.get("name"):
+            bodies.setdefault(d["name"], [])
+            if not any(d is o for o in bodies[d["name"]]):
+                bodies[d["name"]].append(d)
+        elif d.get("kind") in ("CXXRecordDecl", "NamespaceDecl", "LinkageSpecDecl"):
+            todo.extend(d.get("inner", []) or [])
+    root = "idByPoint"
+    if root not in bodies:
+        chk.ob("R13.7", "idByPoint::present", None, src, "the id lookup SpatialIndex::idByPoint was not found")
+        return
+    consts = _header_constants("esutil/htm/htm_src")
+    # the methods of the file that the lookup runs through
+    reach, todo = [], [root]
+    while todo:
+        nm = todo.pop()
+        if nm in reach or nm not in bodies:
+            continue
+        reach.append(nm)
+        for fn in bodies[nm]:
+            for x in walk(cfront.body_of(fn)):
+                if x.get("kind") in ("CallExpr", "CXXMemberCallExpr") and callee_name(x) in bodies and callee_name(x) not in reach:
+                    todo.append(callee_name(x))
+    UNIT_ROUNDOFF = 2.0 ** -53
+    total = 0
+    from checks.C12 import _single_def_locals
+    for nm in sorted(reach):
+        fn = bodies[nm][0]
+        found = []          # (line, text, threshold or None, side that is accepted: 'upper' / 'lower' / None)
+        for f_ in bodies[nm]:
+            sdl = _single_def_locals(f_)
+            g = cfront.CCFG(f_)
+            for x in walk(cfront.body_of(f_)):
+                if x.get("kind") == "BinaryOperator" and x.get("opcode") in ("<", "<=", ">", ">="):
+                    a_, b_ = x["inner"]
+                    ta, tb = _is_triple_product(a_, sdl), _is_triple_product(b_, sdl)
+                    if ta != tb:
+                        op = x["opcode"] if ta else {"<": ">", "<=": ">=", ">": "<", ">=": "<="}[x["opcode"]]      # as `product op t`
+                        holds = _truth_means(g, x)          # 'accept' / 'reject' / None: what it means for the position when the comparison is true
+                        side = None
+                        if holds is not None:
+                            side = "upper" if (op in (">", ">=")) == (holds == "accept") else "lower"
+                        found.append((x.get("line") or next((y["line"] for y in walk(x) if y.get("line")), fn.get("line", "?")), render(x),
+                                      _const_value(a_ if tb else b_, consts, 0, sdl), side))
+        if not found:
+            continue
+        total += len(found)
+        chk.analysed_unit("SpatialIndex.cpp:" + nm)
+        bad, unk = [], []
+        for f in found:
+            ln, txt, t, side = f
+            if t is None:
+                unk.append((ln, txt, "threshold not evaluated"))
+            elif abs(t) < UNIT_ROUNDOFF:
+                bad.append((ln, txt, t, "no slack on either side"))
+            elif side is None:
+                unk.append((ln, txt, "which side of the threshold is accepted was not recognised"))
+            elif (side == "upper") != (t < 0):
+                bad.append((ln, txt, t, "the accepted side (%s) does not contain the products around 0" % ("product >= t" if side == "upper" else "product <= t")))
+        ok = False if bad else (None if unk else True)
+        chk.ob("R13.7", "%s::edge-tests-accept-the-boundary" % nm, ok, "%s:%s" % (src, bad[0][0] if bad else fn.get("line", "?")),
+               "each of the %d edge test(s) `(a ^ b) * v <rel> t` of the descent accepts every product within rounding of 0: it separates at a constant t at least one unit roundoff "
+               "(2^-53) away from 0 on the rejected side (thresholds found: %s), so that a position on an edge shared by sibling triangles, whose computed product is a rounding "
+               "error of either sign in both of them, is accepted by at least one%s%s"
+               % (len(found), sorted({f[2] for f in found if f[2] is not None}),
+                  "" if not bad else " -- `%s` (line %s) separates at %g (%s): such a position can be rejected by every child, the descent then finds no child for the level and the id comes "
+                  "out too short or wrong (outside the valid range of the depth, not a child of the id one level up)" % (bad[0][1][:80], bad[0][0], bad[0][2], bad[0][3]),
+                  "" if not unk else " -- not decided: %s" % "; ".join("`%s` (line %s): %s" % (u[1][:60], u[0], u[2]) for u in unk[:2])))
+    chk.ob("R13.7", "descent-edge-tests-found", True if total >= 3 else None, src, "%d edge test(s) on triple products found in the methods the id lookup runs through (%s)"
+           % (total, ", ".join(sorted(reach))))
+
+
+def _truth_means(g, x):
+    """what the truth of comparison x means for the tested position: 'reject' when the statement it decides goes on, on that outcome, to
+    `return false` / `continue` (or, on the other outcome, to `return true` / `break`), 'accept' in the mirrored cases and when x is a
+    conjunct / disjunct of a returned boolean; `!` on the way flips it.  None when the statement is of another shape."""
+    host = None
+    for n in g.nodes:
+        if isinstance(n.c, dict) and any(y is x for y in walk(n.c)):
+            host = n
+            break
+    if host is None:
+        return None
+
+    def polarity(e, pos):
+        e0 = e
+        if e0 is x:
+            return pos
+        k = e0.get("kind")
+        if k == "UnaryOperator" and e0.get("opcode") == "!":
+            return polarity(e0["inner"][0], not pos)
+        if k == "BinaryOperator" and e0.get("opcode") in ("&&", "||"):
+            for c in e0["inner"]:
+                r = polarity(c, pos)
+                if r is not None:
+                    return r
+            return None
+        if k in ("ParenExpr", "ImplicitCastExpr", "ExprWithCleanups", "ReturnStmt", "MaterializeTemporaryExpr", "CXXBindTemporaryExpr"):
+            for c in e0.get("inner", []) or []:
+                r = polarity(c, pos)
+                if r is not None:
+                    return r
+        return None
+
+    def outcome(m):
+        """'reject' / 'accept' / None for the node a branch edge leads to"""
+        c = m.c if isinstance(m.c, dict) else {}
+        if c.get("kind") == "ContinueStmt":
+            return "reject"
+        if c.get("kind") == "BreakStmt":
+            return "accept"
+        if m.kind == "return" or c.get("kind") == "ReturnStmt":
+            vals = [y for y in walk(c) if y.get("kind") == "CXXBoolLiteralExpr"]
+            inner = c.get("inner") or []
+            if len(vals) == 1 and inner and strip(inner[0]) is vals[0] or (len(vals) == 1 and len(list(walk(c))) <= 3):
+                return "accept" if vals[0].get("value") else "reject"
+        return None
+    pos = polarity(host.c, True)
+    if pos is None:
+        return None
+    if host.kind == "return" or host.c.get("kind") == "ReturnStmt":
+        return "accept" if pos else "reject"
+    if host.kind == "branch":
+        res = {}
+        for j in g.g.successors(host.id):
+            for lab in g.g[host.id][j]["labels"]:
+                if lab in ("T", "F"):
+                    res[lab] = outcome(g.node(j))
+        when_true = res.get("T") or ({"accept": "reject", "reject": "accept"}.get(res.get("F")))
+        if when_true is None:
+            return None
+        return when_true if pos else {"accept": "reject", "reject": "accept"}[when_true]
+    return None
 
 
 # ---------------------------------------------------------------------------
